@@ -277,13 +277,22 @@ func observe(c Case) Obs {
 		return Obs{LexPanic: "bad hex"}
 	}
 	src := string(raw)
-	o := lexOnly(src, c.Mode, c.MaxToks)
 	if !c.Parse {
-		return o
+		return lexOnly(src, c.Mode, c.MaxToks)
 	}
 	budget := time.Duration(c.Budget) * time.Millisecond
 	if budget <= 0 {
 		budget = 2 * time.Second
+	}
+	// the token dump is under the same watchdog as the parse: a lexer that needs hours for one long line must be
+	// reported as a timeout, not waited for
+	lch := make(chan Obs, 1)
+	go func() { lch <- lexOnly(src, c.Mode, c.MaxToks) }()
+	var o Obs
+	select {
+	case o = <-lch:
+	case <-time.After(budget):
+		return Obs{Toks: [][]any{}, Parse: "timeout", exit: true}
 	}
 	ch := make(chan parsed, 1)
 	t0 := time.Now()
